@@ -130,13 +130,13 @@ def f32_evidence(m, limit=6, perturb=None):
         return bool(np.isfinite(f)) and float(f) == float(v) and float(str(f)) != float(v)
 
     def bump(v):
-        return float(np.nextafter(np.float32(v), np.float32(np.inf if perturb() > 0 else -np.inf)))
+        return float(np.nextafter(np.float32(v), np.float32(np.inf if perturb(1)[0] > 0 else -np.inf)))
 
     def tensor(t, where):
         if t.data_type != onnx.TensorProto.DOUBLE:
             return
         n = int(np.prod(t.dims)) if len(t.dims) else 1
-        if n == 0 or n > 4096:
+        if n == 0 or n > 65536:
             return
         try:
             arr = numpy_helper.to_array(t)
@@ -145,13 +145,13 @@ def f32_evidence(m, limit=6, perturb=None):
         a = arr.reshape(-1)
         nz = a[np.isfinite(a) & (a != 0)]
         if nz.size and np.array_equal(nz, nz.astype(np.float32).astype(np.float64)):
-            for x in nz[:64]:
+            for x in nz[:: max(1, nz.size // 512)]:
                 if rounded_decimal(float(x)):
                     out.append(f"{where}: DOUBLE constant holding float32-rounded values, e.g. {float(x)!r} = float32({np.float32(x)})")
                     if perturb is not None:
-                        d = np.inf if perturb() > 0 else -np.inf
-                        f32 = arr.astype(np.float32)
-                        moved = np.where(np.isfinite(arr) & (arr != 0), np.nextafter(f32, np.float32(d)), f32).astype(np.float64)
+                        d = np.where(perturb(a.size) > 0, np.float32(np.inf), np.float32(-np.inf)).astype(np.float32)
+                        f32 = a.astype(np.float32)
+                        moved = np.where(np.isfinite(a) & (a != 0), np.nextafter(f32, d), f32).astype(np.float64)
                         t.CopyFrom(numpy_helper.from_array(moved.reshape(arr.shape), t.name))
                     return
 
@@ -613,13 +613,16 @@ def _numeric(fn, m, key, vals, kw, seed, spec_dtypes=()):
         k = worst["out"]
         base = np.asarray(got[k], dtype=np.float64)
         deltas = []
-        for mode in ("up", "alternate"):
+        for mode in ("up", "alternate", "random"):
             m2 = copy.deepcopy(m)
-            state = [0]
+            prng = np.random.default_rng(12345)
 
-            def sign():
-                state[0] += 1
-                return 1 if (mode == "up" or state[0] % 2) else -1
+            def sign(n, mode=mode, prng=prng):
+                if mode == "up":
+                    return np.ones(n)
+                if mode == "alternate":
+                    return np.where(np.arange(n) % 2 == 0, 1.0, -1.0) if n > 1 else np.array([-1.0])
+                return np.where(prng.random(n) < 0.5, 1.0, -1.0)
             if not f32_evidence(m2, perturb=sign):
                 break
             try:
